@@ -10,6 +10,8 @@ import (
 	"net"
 	"strconv"
 	"strings"
+	"sync"
+	"sync/atomic"
 	"time"
 
 	"github.com/ethereum/go-ethereum/crypto"
@@ -406,6 +408,59 @@ func runC15(o *Out, r *rand.Rand, thorough bool, _ []string) {
 		} else {
 			o.Case("utpdec "+strconv.Itoa(v)+" "+bytesTerm(m), "ok "+canon(d))
 		}
+	}
+	// 5. the same functions called from many goroutines at once (every accepted offer is split in a goroutine of its own, answers
+	// to FINDCONTENT in the caller's, and the sub-networks of one process share the package): each worker joins and splits its
+	// own lists; every result must be what the same call gives alone
+	{
+		const workers = 8
+		type job struct {
+			raw     [][]byte
+			enc     []byte
+			splitOf string // decResult of the stream when split alone
+			single  []byte
+		}
+		jobs := make([][]job, workers)
+		for w := range jobs {
+			for k := 0; k < 12; k++ {
+				n := 1 + r.Intn(16)
+				raw := make([][]byte, n)
+				for j := range raw {
+					raw[j] = randItem(r, []int{0, 1, 5, 127, 128, 200, 16383, 16384, 20000}[r.Intn(9)]).Bytes()
+				}
+				enc := portalwire.VerifEncodeContents(raw)
+				xs, err := c15DecodeContents(enc)
+				jobs[w] = append(jobs[w], job{raw, enc, decResult(xs, err), raw[0]})
+			}
+		}
+		rounds := 300
+		if thorough {
+			rounds = 5000
+		}
+		var diffs int64
+		var wg sync.WaitGroup
+		for w := 0; w < workers; w++ {
+			wg.Add(1)
+			go func(w int) {
+				defer wg.Done()
+				for k := 0; k < rounds; k++ {
+					j := jobs[w][k%len(jobs[w])]
+					if e := portalwire.VerifEncodeContents(j.raw); !bytes.Equal(e, j.enc) {
+						atomic.AddInt64(&diffs, 1)
+					}
+					xs, err := c15DecodeContents(j.enc)
+					if decResult(xs, err) != j.splitOf {
+						atomic.AddInt64(&diffs, 1)
+					}
+					one := portalwire.VerifEncodeSingleContent(j.single)
+					if c, rest, err := c15DecodeSingle(one); err != nil || !bytes.Equal(c, j.single) || len(rest) != 0 {
+						atomic.AddInt64(&diffs, 1)
+					}
+				}
+			}(w)
+		}
+		wg.Wait()
+		o.Case(fmt.Sprintf("concframing workers=%d rounds=%d", workers, rounds), fmt.Sprintf("diffs=%d", diffs))
 	}
 	c15RetContents.note(nil)
 	c15RetUtp.note(nil)
